@@ -3,7 +3,7 @@ the evidence files."""
 import importlib
 import os
 
-RULE_MODULES = ["r_threads"]
+RULE_MODULES = ["r_threads", "r_work", "r_fs"]
 
 
 def load_rule_modules():
@@ -12,17 +12,61 @@ def load_rule_modules():
 
 
 PROPS = {
+    "C01": {
+        "rules": ["C01.R1", "C01.R2", "C01.R3", "C01.R4", "C01.R5", "C01.R6", "C01.R9", "C03.R5", "C07.R4", "C20.R2", "C18.R1"],
+        "explanation": "Decides the integrity of the up-to-date decision (each rule a necessary condition of C01): history looked up and recorded under this rule's sources hash; sources hash covers every upstream hash in receiver order; remembered vector index-aligned with the targets; AlreadyCorrect only under a full Ticket equality with the current hash of the same file; command skipped only when no target needs rebuilding; what is recorded is what was read from disk after a successful command; producer/consumer sub-index agreement; a status of Recovered only where a restore happened; the mtime shortcut is exact. Not decided: byte equality with a from-scratch build over arbitrary histories (runtime state).",
+    },
+    "C02": {
+        "rules": ["C02.R1", "C02.R2", "C02.R3", "C02.R4", "C02.R6", "C01.R2"],
+        "explanation": "Decides: at most one command execution per rule per build (no call site of the chain on a cycle or twice on a path); the Up-to-date path reaches no mutating System method; the command runs only on the true edge of needs-rebuild; NeedsRebuild only after the cache (and download) said NotThere; what was learned is persisted (history returned and written). Not decided: that a lookup hits on a given history.",
+    },
     "C03": {
         "rules": ["C03.R1", "C03.R2", "C03.R3", "C03.R5"],
         "explanation": "Decides the happens-before chain of C03 as it is visible in the code's shape: handler only on the Ok edge of the draining function; draining function returns Ok only after recv succeeded on every receiver; hashes are announced only after the handler returned Ok and are taken from its result by the sub-index stored with the sender. Not decided: correctness of the announced content, acyclicity of the runtime plan.",
     },
     "C04": {
-        "rules": ["C04.R2", "C04.R3", "C04.R4", "C04.R5"],
-        "explanation": "Decides: nothing is recorded for a failed execution (history written only under Ok(Ok(_)) of join); cancel is forwarded on every failing path; a Cancel packet stops the dependent; one error per failed thread, none for cancelled ones. Not decided: content correctness of independent rules (C01).",
+        "rules": ["C04.R1", "C04.R2", "C04.R3", "C04.R4", "C04.R5", "C04.R6"],
+        "explanation": "Decides: exit status is tested (code == Some(0)) before an output is accepted; nothing is recorded for a failed execution (history written only under Ok(Ok(_)) of join, error types carry no history); cancel is forwarded on every failing path; a Cancel packet stops the dependent; one error per failed thread, none for cancelled ones; errors carry the failing path. Not decided: content correctness of independent rules (C01).",
     },
     "C05": {
         "rules": ["C05.R1", "C03.R2", "C05.R3", "C04.R3"],
         "explanation": "Decides the channel protocol that makes build/clean terminate: exactly one packet per edge per return path, receivers drained completely, all spawns before any join and every handle joined. Not decided: acyclicity of the runtime wait-for graph (sorter output).",
+    },
+    "C06": {
+        "rules": ["C06.R1", "C06.R3", "C06.R3b", "C05.R1", "C01.R2"],
+        "explanation": "Non-interference argument: threads share nothing but channels and the file system (capture inventory); the only contended resource is the cache directory, on which no check-then-act may turn a lost race into a hard error; absence of a cache entry is never an error; channel results are consumed in receiver order, never arrival order. Not decided: equality of final bytes.",
+    },
+    "C07": {
+        "rules": ["C07.R1", "C07.R2", "C07.R3", "C07.R4", "C01.R6"],
+        "explanation": "Decides: a file enters the cache only under the hash computed from that very path with no mutation in between; one naming scheme for writer and readers; only the two renames of cache.rs write into the cache directory; (path, assumed state) pairs come from one FileInfo; hashes are refreshed after a command. Not decided: truth of remembered (hash, mtime) pairs at runtime.",
+    },
+    "C08": {
+        "rules": ["C08.R1", "C08.R2", "C08.R3", "C08.R4", "C07.R1"],
+        "explanation": "Decides: there is no deleting primitive (System trait method set, no std::fs outside real.rs); every rename destination is a content-named cache entry or a path proven vacant (backed up / found absent) on every path through all callers; every create_file targets a ruler state file or a vacant path, writes only go to created files; every non-AlreadyCorrect verdict is preceded by displacement. Not decided: preservation of actual bytes on a real file system.",
+    },
+    "C09": {
+        "rules": ["C09.R1", "C09.R2", "C09.R3", "C09.R4", "C07.R3"],
+        "explanation": "Decides the provenance of every path given to a mutating System call (FileInfo.path of a blob or ruler's own directory), where FileInfos come from (only take_blob of declared targets), which blob reaches which thread (its own node's targets; leaves only hashed), and that the goal parameter reaches the goal-restricted sorter. Not decided: that the sorter returns exactly the ancestors (C12).",
+    },
+    "C10": {
+        "rules": ["C10.R1", "C10.R2", "C10.R3", "C07.R1", "C09.R4", "C08.R1", "C02.R4"],
+        "explanation": "Decides: clean backs up every existing target of every node (complete loops, no skipping path, errors returned); a missing target with a remembered hash is restored by rename from the entry named by that hash; downloaded files get their remembered permission; clean honours its goal. Not decided: end-to-end behaviour on a real file system.",
+    },
+    "C11": {
+        "rules": ["C11.R1", "C11.R2", "C11.R4", "C04.R2"],
+        "explanation": "Decides: user data moves only by single renames (no open+create copy); history written only after a successful join, the file-state table only after all joins; state files read back by a strict decoder must be replaced atomically (temp + rename). Not decided: the disk state at each individual crash point (fault enumeration).",
+    },
+    "C17": {
+        "rules": ["C17.R1", "C17.R2", "C17.R3", "C04.R2"],
+        "explanation": "Decides: insert never overwrites (only on the miss edge of the same key) and maps Contradiction to Err; every successful re-execution passes through insert; exactly the indices whose tickets differ are reported and mapped to paths[i] of the refreshed blob; the earlier record cannot leave through an error. Not decided: whether a given history forces re-execution.",
+    },
+    "C18": {
+        "rules": ["C18.R1", "C01.R6", "C01.R9"],
+        "explanation": "Decides: the shortcut is taken only under exact equality of the file's own mtime with the remembered one; the table is refreshed whenever a command ran. Not decided: equality of paired runs over all histories.",
+    },
+    "C20": {
+        "rules": ["C20.R2", "C20.R4", "C04.R5", "C02.R2"],
+        "explanation": "Decides: each status variant is constructed only where its cause happened (command executed / restore done / download done / effect-free path); status lines are printed only under Ok(Ok(_)) of join; one error per failed rule. Not decided: nothing structural beyond the listed rules.",
     },
 }
 
